@@ -1,4 +1,5 @@
 import TaffyVerif.Drv.C02
+import TaffyVerif.Drv.C09
 import TaffyVerif.Drv.EVAL
 import TaffyVerif.Drv.Pairs
 import TaffyVerif.Drv.C07
@@ -14,6 +15,7 @@ import TaffyVerif.Drv.C15
 
 def handlers : List (String × Handler) := [
   ("C02", DrvC02.handler),
+  ("C09", DrvC09.handler),
   ("EVAL", DrvEVAL.handler),
   ("C04", DrvC04.handler),
   ("C05", DrvC05.handler),
